@@ -24,7 +24,7 @@ anything else; it never guesses.  The subset:
           module `const`s (inlined, or mapped by the target's table), `f64::INFINITY` (rs_f64_infinity O = 1/0: +inf on
           binary64); `f64::NAN` only as a whole result in `moment` mode
   methods `.exp() .ln() .sqrt() .abs() .powi(k) .powf(y) .ln_1p() .exp_m1() .sin() .cos() .floor() .max(y) .min(y)`
-          on f64; `.min(y) .max(y)` on integers
+          on f64 (also written `f64::min(a, b)` / `f64::max(a, b)`); `.min(y) .max(y)` on integers
 
 Rendering (same operation order as the source, fully parenthesised prefix applications):
   a + b -> add O a b, ... ; -a -> neg O a ; a < b -> ltb O a b ; a > b -> ltb O b a ; a <= b -> leb O a b ;
@@ -1176,6 +1176,11 @@ class Translator:
 
     def call(self, e, env):
         name = "::".join(e.path)
+        if name in ("f64::min", "f64::max") and len(e.args) == 2:
+            # `f64::min(a, b)` is the method call `a.min(b)`
+            (a, ta), (b, tb) = self.expr(e.args[0], env), self.expr(e.args[1], env)
+            if ta != "f" or tb != "f": raise self.fail(e, "f64::min / f64::max on non-f64 arguments")
+            return f"{'fmin' if name.endswith('min') else 'fmax'} O ({a}) ({b})", "f"
         if name in self.cfg.calls:
             cq, argt, rt = self.cfg.calls[name]
             if not argt:
@@ -3018,6 +3023,7 @@ _POS = [   # (Rust, expected Gallina body): precedence, associativity, literal r
     ("fn f(x: f64) -> f64 { assert!(x > 0., \"msg {}\", x); x.ln() }", "if ltb O (zero O) (x) then Some (f1 O Ln (x)) else None"),
     ("fn f(x: f64) -> f64 { 2_f64.powf(x) + x.powf(2.) }", "add O (f1 O Exp2 (x)) (f2 O Pow (x) (two O))"),
     ("fn f(x: f64, y: f64) -> f64 { x.max(y).min(1.) }", "fmin O (fmax O (x) (y)) (one O)"),
+    ("fn f(x: f64, y: f64) -> f64 { f64::min(x.abs(), y) }", "fmin O (abs O (x)) (y)"),
     ("fn f(k: u64) -> f64 { (1..=k).map(|i| (i as f64).ln()).sum() }",
      "rs_iter_sum O (map (fun i : Z => f1 O Ln (ofZ O (i))) (rs_range (1%Z) (k)))"),
 ]
